@@ -163,13 +163,23 @@ func c02Program(r *vfRand, e *c02Env, n int) ([]vfPkt, int) {
 		case x < 97:
 			p.Type, p.Path, p.Path2 = rfSymlink, "target", vfPick(r, missing)
 		case x < 98:
-			p.Type, p.Ext, p.Path = rfExtended, "statvfs@openssh.com", anyPath()
+			p.Type, p.Ext, p.Path = rfExtended, "statvfs@openssh.com", vfPick(r, []string{anyPath(), files[0], "/"})
 		case x < 99:
 			p.Type, p.Ext, p.Path, p.Path2 = rfExtended, "posix-rename@openssh.com", vfPick(r, missing), vfPick(r, missing)
 		default:
 			p.Type, p.Ext, p.ExtData = rfExtended, "unknown-"+fmt.Sprint(r.Intn(100))+"@example.com", r.Bytes(r.Intn(30))
 		}
 		out = append(out, p)
+		// the same request again, back to back, under fresh ids: each is a request of its own
+		// (a reply object shared between identical requests would show as a repeated or missing id)
+		if r.Intn(12) == 0 && len(p.Data) < 4096 {
+			for k := 1 + r.Intn(3); k > 0 && i+1 < n; k-- {
+				i++
+				q := p
+				q.ID = base + uint32(i)*7919
+				out = append(out, q)
+			}
+		}
 	}
 	return out, maxFrames
 }
